@@ -123,3 +123,45 @@ pub fn nontrivial(out: &NOut) -> bool {
     let real_layers = out.layers.iter().filter(|l| l.kind != Kind::EtherStart).count();
     real_layers >= 2 || (real_layers >= 1 && (out.err.is_some() || out.stop.is_some())) || out.stop.is_some()
 }
+
+/// brings the extension header layers of a (struct mode) walk into the canonical order in which
+/// the adapters list the fields of `Ipv6Extensions` (the struct does not keep the wire order)
+pub fn canonical_ext_order(layers: &[NLayer]) -> Vec<NLayer> {
+    let mut out: Vec<NLayer> = Vec::with_capacity(layers.len());
+    let mut i = 0;
+    while i < layers.len() {
+        let is_ext = |k: Kind| matches!(k, Kind::ExtHbh | Kind::ExtDest | Kind::ExtRoute | Kind::ExtFrag | Kind::ExtAh);
+        if !is_ext(layers[i].kind) {
+            out.push(layers[i].clone());
+            i += 1;
+            continue;
+        }
+        let mut j = i;
+        let mut ranked: Vec<(u8, NLayer)> = Vec::new();
+        let mut route_seen = false;
+        while j < layers.len() && is_ext(layers[j].kind) {
+            let rank = match layers[j].kind {
+                Kind::ExtHbh => 0,
+                Kind::ExtDest => {
+                    if route_seen {
+                        3
+                    } else {
+                        1
+                    }
+                }
+                Kind::ExtRoute => {
+                    route_seen = true;
+                    2
+                }
+                Kind::ExtFrag => 4,
+                _ => 5,
+            };
+            ranked.push((rank, layers[j].clone()));
+            j += 1;
+        }
+        ranked.sort_by_key(|x| x.0);
+        out.extend(ranked.into_iter().map(|x| x.1));
+        i = j;
+    }
+    out
+}
